@@ -45,6 +45,19 @@ func c12Universe() ([]Object, []string) {
 	big2 := append([]Object{}, big...)
 	big2[8] = Float{Value: 8}
 	add("[0..7,8.0]", NewArray(big2))
+	// containers whose elements are themselves values Go's == cannot compare (functions, errors, large arrays, maps)
+	fn1 := Function{CacheKey: "func(x){x}"}
+	fn2 := Function{CacheKey: "func(x){x+1}"}
+	add("func1", fn1)
+	add("func2", fn2)
+	add("[func1]", NewArray([]Object{fn1}))
+	add("[func2]", NewArray([]Object{fn2}))
+	add("[err(a)]", NewArray([]Object{Error{Value: "a"}}))
+	add("[[0..8]]", NewArray([]Object{NewArray(big)}))
+	add("[[0..7,8.0]]", NewArray([]Object{NewArray(big2)}))
+	add("[{1:1}]", NewArray([]Object{NewMap().Set(one, one)}))
+	add("{1:[0..8]}", NewMap().Set(one, NewArray(big)))
+	add("{1:func1}", NewMap().Set(one, fn1))
 	add("{}", NewMap())
 	add("{1:1}", NewMap().Set(one, one))
 	add("{1:2}", NewMap().Set(one, two))
@@ -142,7 +155,7 @@ func TestVerifBoundedCmpLaws(t *testing.T) {
 		fmt.Printf("BOUNDED-KNOWN %s %s\n", id, d)
 	}
 	fmt.Printf("BOUNDED evaluations=%d distinct=%d exhaustive=true bound=%q\n", evals, n*n*n,
-		fmt.Sprintf("all pairs and triples of a curated universe of %d values (boundary integers around 2^53 and 2^63, +-0, NaN, +-Inf, subnormal, booleans, nil, strings, errors, small/large/nested arrays, small/large maps built in two insertion orders)", n))
+		fmt.Sprintf("all pairs and triples of a curated universe of %d values (boundary integers around 2^53 and 2^63, +-0, NaN, +-Inf, subnormal, booleans, nil, strings, errors, small/large/nested arrays, functions, arrays and maps holding functions / errors / large arrays / maps, small/large maps built in two insertion orders)", n))
 	if fails > 0 {
 		t.Fatalf("%d failures", fails)
 	}
